@@ -39,7 +39,7 @@ def run(pid, tier, seed):
         return r
 
     def arena_directed():
-        c = {"Hdr": 16, "Pad": 8, "Buf": 65536, "Depth": 2 if q else 3, "Lengths": "{}", "Directed": "TRUE", "Record": "TRUE"}
+        c = {"Hdr": 16, "Pad": 8, "Buf": 65536, "Depth": 3 if q else 4, "Lengths": "{}", "Directed": "TRUE", "Record": "TRUE"}
         r = vlib.generate_and_replay("ArenaMC", "%s-directed" % pid, c, exe, exe_args=("lengths",), invariants=["AValid"],
                                      workers=2, timeout=3000)
         p = os.path.join(tdir, "%s-arena-%s.ndjson" % (pid, tier))
